@@ -188,6 +188,16 @@ class Verifier:
         G = self.SymGen(I)
         I.G = G
         I.fkeys = {}
+        # stub_calls = {callee key: tag}: inside THIS contract the callee is abstract - a call records the ghost event
+        # [tag, *args] and yields an opaque result that is a function of the arguments (the reference uses ghost_call)
+        for skey, stag in (getattr(C.cls, "stub_calls", None) or {}).items():
+            def _mk(tag):
+                def hook(I_, fref, a, kw):
+                    from .values import Opaque
+                    I_.ghost.append([tag] + list(a) + [kw[k] for k in sorted(kw)])
+                    return (Opaque(tag, list(a)),)
+                return hook
+            I.contracts[skey] = _mk(stag)
         for lk, ls in (getattr(C.cls, "loops", None) or {}).items():
             fk, ordinal = lk.rsplit("#", 1)
             I.loop_specs[(fk, int(ordinal))] = dict(contract=C, inv=contract_fref(self.prog, C, ls.get("inv") or ls.get("pred")), temps=ls.get("temps", ()), reads=ls.get("reads", ()),
